@@ -71,9 +71,18 @@ func oracleClean(c CleanCase) error {
 	if astdump.Dump(obj) == want && c.Field != "*" {
 		return nil // field could not be made non-zero
 	}
+	if hx.Allowed("c09.clean.span_table") {
+		ast.SetSpan(obj, models.Span{Start: models.Location{Line: 3, Column: 4}, End: models.Location{Line: 5, Column: 6}})
+	}
 	p.Put(obj)
+	if sp := ast.GetSpan(obj); sp != models.EmptySpan() {
+		return fmt.Errorf("%s released after ast.SetSpan recorded a span for it: ast.GetSpan still reports %v for the pooled object, a freshly constructed one has none", c.Type, sp)
+	}
 	if got := astdump.Dump(obj); got != want {
 		return fmt.Errorf("%s released with %s set is not reset by its release path: it still holds %s", c.Type, fieldDesc(c), clip(got))
+	}
+	if r := reflectx.Residue(reflect.ValueOf(obj)); len(r) > 0 && hx.Allowed("c09.clean.backing_array") {
+		return fmt.Errorf("%s released with %s set keeps the previous content behind a truncated slice (visible again after reslicing to capacity): %s", c.Type, fieldDesc(c), clip(strings.Join(r, "; ")))
 	}
 	if p.Get != nil {
 		g := p.Get()
@@ -82,6 +91,12 @@ func oracleClean(c CleanCase) error {
 		}
 		if got := astdump.Dump(g); got != want {
 			return fmt.Errorf("after releasing a %s with %s set, the next Get returns %s instead of a clean value", c.Type, fieldDesc(c), clip(got))
+		}
+		if sp := ast.GetSpan(g); sp != models.EmptySpan() {
+			return fmt.Errorf("after releasing a %s for which a span was recorded, the next Get returns a value for which ast.GetSpan reports %v", c.Type, sp)
+		}
+		if r := reflectx.Residue(reflect.ValueOf(g)); len(r) > 0 && hx.Allowed("c09.clean.backing_array") {
+			return fmt.Errorf("after releasing a %s with %s set, the next Get returns a value that keeps the previous holder's content behind a truncated slice: %s", c.Type, fieldDesc(c), clip(strings.Join(r, "; ")))
 		}
 	}
 	return nil
@@ -107,7 +122,7 @@ func TestPoolClean(t *testing.T) {
 	if hx.Shard() != 0 {
 		t.Skip("enumeration runs on shard 0 only")
 	}
-	hx.Rule("pool_clean", "every pooled type with a Put accessor (registry generated from pkg/sql/ast/pool.go) x every exported field x slice lengths {1, 40, 300}: a value with exactly that field (and once with every field) filled with arbitrary non-zero content is released through its public path; the released object and the object the next Get returns (goroutine pinned, same object) must dump equal to a freshly constructed one; exhaustive over (type, field)")
+	hx.Rule("pool_clean", "every pooled type with a Put accessor (registry generated from pkg/sql/ast/pool.go) x every exported field x slice lengths {1, 40, 300}: a value with exactly that field (and once with every field) filled with arbitrary non-zero content, and with a span recorded for it through ast.SetSpan, is released through its public path; the released object and the object the next Get returns (goroutine pinned, same object) must dump equal to a freshly constructed one, hold only zero values between the length and the capacity of every slice reachable from it, and have no recorded span; exhaustive over (type, field)")
 	n := 0
 	for _, p := range registry.Pools {
 		ty := reflect.TypeOf(p.New()).Elem()
